@@ -95,15 +95,22 @@ func viewAtom(in ssa.Instruction) (vatom, bool) {
 		}
 	case *ssa.FreeVar:
 		rhs = "free:" + y.Name()
-	case *ssa.UnOp: // a captured variable is a cell: the closure loads it
-		fv, isFree := y.X.(*ssa.FreeVar)
-		if y.Op != token.MUL || !isFree {
+	case *ssa.UnOp: // a captured variable is a cell: the closure (and, once captured, the declaring function) loads it
+		if y.Op != token.MUL {
+			return vatom{}, false
+		}
+		name := ""
+		if p := capturedParam(y); p != nil {
+			name = "param:" + p.Name()
+		} else if fv, isFree := y.X.(*ssa.FreeVar); isFree {
+			name = "free:" + fv.Name()
+		} else {
 			return vatom{}, false
 		}
 		if b, ok := y.Type().Underlying().(*types.Basic); ok && b.Kind() == types.String {
 			rhs = "peer"
 		} else {
-			rhs = "free:" + fv.Name()
+			rhs = name
 		}
 	default:
 		return vatom{}, false
@@ -337,25 +344,62 @@ func ruleSIBviews(w *World, r *Report) {
 	stampSig, keepSig := map[string]string{}, map[string]string{}
 	stampTS := map[string]bool{}
 	for _, v := range views {
-		// soft: stores to the DeletedAt field of an element of this view's list
+		// soft: stores to the DeletedAt field of an element of this view's list — in RemoveEdge itself or in a helper that
+		// was extracted out of it (the conditions under which the helper is called are then part of the predicate)
 		var stamps, keeps []ssa.Instruction
-		for _, b := range fn.Blocks {
-			for _, in := range b.Instrs {
-				if st, ok := in.(*ssa.Store); ok {
-					if fa, ok := st.Addr.(*ssa.FieldAddr); ok {
-						owner, f := structFieldName(fa.X.Type(), fa.Field)
-						if f == "DeletedAt" && strings.HasSuffix(owner, v.elem) {
-							stamps = append(stamps, in)
-							if p, ok := st.Val.(*ssa.Parameter); ok && isInt64(p.Type()) {
-								stampTS[v.name] = true
+		for _, f := range append([]*ssa.Function{fn}, w.extractedHelpers(fn)...) {
+			for _, b := range f.Blocks {
+				for _, in := range b.Instrs {
+					if st, ok := in.(*ssa.Store); ok {
+						if fa, ok := st.Addr.(*ssa.FieldAddr); ok {
+							owner, fld := structFieldName(fa.X.Type(), fa.Field)
+							if fld == "DeletedAt" && strings.HasSuffix(owner, v.elem) {
+								stamps = append(stamps, in)
+								if p := capturedParam(st.Val); p != nil && isInt64(p.Type()) {
+									if f == fn {
+										stampTS[v.name] = true
+									} else { // the helper's parameter must be fed with RemoveEdge's own at every call
+										idx, fed := -1, true
+										for i, hp := range f.Params {
+											if hp == p {
+												idx = i
+											}
+										}
+										for _, cs := range callSitesOf(fn, f) {
+											if idx < 0 || idx >= len(cs.Call.Args) {
+												fed = false
+												continue
+											}
+											if ap, ok := cs.Call.Args[idx].(*ssa.Parameter); !ok || !isInt64(ap.Type()) {
+												fed = false
+											}
+										}
+										if fed && idx >= 0 {
+											stampTS[v.name] = true
+										}
+									}
+								}
 							}
 						}
 					}
-				}
-				if c, ok := isBuiltinCall(in, "append"); ok && sliceElemName(c.Type()) == v.elem && enclosingLoop(fn, c.Block()) != nil {
-					keeps = append(keeps, in)
+					if c, ok := isBuiltinCall(in, "append"); ok && sliceElemName(c.Type()) == v.elem && enclosingLoop(f, c.Block()) != nil {
+						keeps = append(keeps, in)
+					}
 				}
 			}
+		}
+		reachTable := func(f *ssa.Function, e ssa.Instruction, inLoop bool) string {
+			scope := map[*ssa.BasicBlock]bool{}
+			if inLoop {
+				if h := enclosingLoop(f, e.Block()); h != nil {
+					scope = loopBlocks(f, h)
+				}
+			}
+			tbl, _ := truthTable(f, scope, func(assume map[ssa.Value]bool) bool {
+				found, _ := pathQuery{fn: f, target: func(in ssa.Instruction) bool { return in == e }, assume: assume}.find(entryPos(f))
+				return found
+			})
+			return tbl
 		}
 		sig := func(effects []ssa.Instruction) string {
 			if len(effects) == 0 {
@@ -363,17 +407,20 @@ func ruleSIBviews(w *World, r *Report) {
 			}
 			var parts []string
 			for _, e := range effects {
-				e := e
-				h := enclosingLoop(fn, e.Block())
-				scope := map[*ssa.BasicBlock]bool{}
-				if h != nil {
-					scope = loopBlocks(fn, h)
+				f := e.Parent()
+				if pred := indexFuncPredicate(e); pred != nil && f == fn {
+					// the element was selected by slices.IndexFunc: the predicate is the function literal
+					parts = append(parts, andTables(reachTable(fn, e, true), closureTable(pred)))
+					continue
 				}
-				tbl, _ := truthTable(fn, scope, func(assume map[ssa.Value]bool) bool {
-					found, _ := pathQuery{fn: fn, target: func(in ssa.Instruction) bool { return in == e }, assume: assume}.find(entryPos(fn))
-					return found
-				})
-				parts = append(parts, tbl)
+				if f == fn {
+					parts = append(parts, reachTable(fn, e, true))
+					continue
+				}
+				inner := reachTable(f, e, true)
+				for _, cs := range callSitesOf(fn, f) {
+					parts = append(parts, andTables(reachTable(fn, cs, false), inner))
+				}
 			}
 			sort.Strings(parts)
 			return strings.Join(parts, " ; ")
@@ -465,22 +512,7 @@ func ruleSIBviews(w *World, r *Report) {
 					sigs = append(sigs, "predicate-not-a-function-literal")
 					continue
 				}
-				all := map[*ssa.BasicBlock]bool{}
-				for _, pb := range pred.Blocks {
-					all[pb] = true
-				}
-				undecided := false
-				tbl, _ := truthTable(pred, all, func(assume map[ssa.Value]bool) bool {
-					res, known := closureAnswers(pred, assume)
-					if !known {
-						undecided = true
-					}
-					return res
-				})
-				if undecided {
-					tbl = "predicate-not-evaluated"
-				}
-				sigs = append(sigs, tbl)
+				sigs = append(sigs, closureTable(pred))
 			}
 		}
 		sort.Strings(sigs)
@@ -1014,4 +1046,104 @@ func closureAnswers(fn *ssa.Function, assume map[ssa.Value]bool) (result, known 
 		}
 	}
 	return false, false
+}
+
+// callSitesOf: the static calls of callee in fn and its function literals.
+func callSitesOf(fn, callee *ssa.Function) []*ssa.Call {
+	var out []*ssa.Call
+	for _, f := range append([]*ssa.Function{fn}, closuresOf(fn)...) {
+		for _, b := range f.Blocks {
+			for _, in := range b.Instrs {
+				if c, ok := in.(*ssa.Call); ok && c.Call.StaticCallee() == callee {
+					out = append(out, c)
+				}
+			}
+		}
+	}
+	return out
+}
+
+// andTables: the conjunction of two truth tables over disjoint atoms, in the canonical form truthTable renders.
+func andTables(a, b string) string {
+	switch {
+	case a == "never" || b == "never":
+		return "never"
+	case a == "always":
+		return b
+	case b == "always":
+		return a
+	}
+	key := func(l string) string { return strings.TrimPrefix(l, "!") }
+	var rows []string
+	for _, ra := range strings.Split(a, " | ") {
+		for _, rb := range strings.Split(b, " | ") {
+			lits := append(strings.Split(ra, "&"), strings.Split(rb, "&")...)
+			sort.Slice(lits, func(i, j int) bool { return key(lits[i]) < key(lits[j]) })
+			rows = append(rows, strings.Join(lits, "&"))
+		}
+	}
+	sort.Strings(rows)
+	return strings.Join(rows, " | ")
+}
+
+// indexFuncPredicate: e stores into (a field of) list[i] where i is the result of slices.IndexFunc(list, pred): pred.
+func indexFuncPredicate(e ssa.Instruction) *ssa.Function {
+	st, ok := e.(*ssa.Store)
+	if !ok {
+		return nil
+	}
+	a := st.Addr
+	if fa, ok := a.(*ssa.FieldAddr); ok {
+		a = fa.X
+	}
+	ia, ok := a.(*ssa.IndexAddr)
+	if !ok {
+		return nil
+	}
+	for _, leaf := range phiLeavesOf(ia.Index) {
+		c, ok := leaf.(*ssa.Call)
+		if !ok || len(c.Call.Args) != 2 {
+			continue
+		}
+		g := c.Call.StaticCallee()
+		if g == nil {
+			continue
+		}
+		o := g
+		if g.Origin() != nil {
+			o = g.Origin()
+		}
+		if o.Pkg == nil || o.Pkg.Pkg.Path() != "slices" || o.Name() != "IndexFunc" {
+			continue
+		}
+		switch f := c.Call.Args[1].(type) {
+		case *ssa.MakeClosure:
+			if pf, ok := f.Fn.(*ssa.Function); ok {
+				return pf
+			}
+		case *ssa.Function:
+			return f
+		}
+	}
+	return nil
+}
+
+// closureTable: the truth table of "the boolean function literal answers true", over its comparison atoms.
+func closureTable(pred *ssa.Function) string {
+	all := map[*ssa.BasicBlock]bool{}
+	for _, pb := range pred.Blocks {
+		all[pb] = true
+	}
+	undecided := false
+	tbl, _ := truthTable(pred, all, func(assume map[ssa.Value]bool) bool {
+		res, known := closureAnswers(pred, assume)
+		if !known {
+			undecided = true
+		}
+		return res
+	})
+	if undecided {
+		return "predicate-not-evaluated"
+	}
+	return tbl
 }
